@@ -214,21 +214,58 @@ def compare(spec, real):
 def main():
     data = json.load(open(sys.argv[1]))
     world = World(data["config"])
-    threads = sorted(data["behaviours"][0]["projs"][0]["pc"]) if data["behaviours"] else []
+    threads = sorted({a[1] for b in data["behaviours"] for a in b["acts"] if a[0] == "Start"})
     world.start_workers(threads)
     # warm-up: make every lazy import happen before the module count is taken as the base
     world.reset()
     stackscope.extract(None, with_contexts=False)
     warnings.warn("warm-up", RuntimeWarning) if False else None
-    out = {"n": 0, "steps": 0, "mismatches": [], "skipped": 0}
+    out = {"n": 0, "steps": 0, "mismatches": [], "skipped": 0, "strict": [], "returns_checked": 0}
+    cfg = data["config"]
+    bearing = [m for m in cfg["mods"] if m in cfg["hasB"] or cfg["flavour"][m] != "none"]
     for bi, beh in enumerate(data["behaviours"]):
         world.reset()
         bad = None
+        start_mods, removed = {}, {}
+        snap_of, last_scanned, collision = {}, set(), False
+        projs = beh.get("projs") or [None] * len(beh["acts"])
         try:
-            for k, (a, proj) in enumerate(zip(beh["acts"], beh["projs"])):
+            for k, (a, proj) in enumerate(zip(beh["acts"], projs)):
                 world.act(a)
                 real = world.projection()
-                diff = compare(proj, real)
+                # ---- the property itself, evaluated on the REAL state (independent of the model's verdict)
+                # independent signature of F4: a fast-path exit while the module set differs from the last scanned one
+                if a[0] == "LeaveWait":
+                    snap_of[a[1]] = set(real["sysmods"])
+                elif a[0] == "LeaveCache":
+                    last_scanned = snap_of.get(a[1], set())
+                elif a[0] == "LeaveCheck" and real["pc"].get(a[1]) == "fast" and set(real["sysmods"]) != last_scanned:
+                    collision = True
+                if a[0] == "Start":
+                    start_mods[a[1]] = set(real["sysmods"])
+                    removed[a[1]] = set()
+                elif a[0] == "Remove":
+                    for t in removed:
+                        removed[t].add(a[1])
+                if a[0] in ("LeaveCheck", "LeaveCache") and real["pc"].get(a[1]) in ("fast", "release"):
+                    out["returns_checked"] += 1
+                    # modules removed by glue functions themselves count as removed, too
+                    gone = {m for m in start_mods.get(a[1], ()) if m not in real["sysmods"]}
+                    for m in start_mods.get(a[1], set()) - removed.get(a[1], set()) - gone:
+                        if m in bearing and (real["pending"][m] or real["fnLeft"][m]):
+                            out["strict"].append({"behaviour": bi, "step": k, "what": "InTime: extraction of %s returns but the glue of module %s (present since before it started) has not run" % (a[1], m),
+                                                  "f4": collision, "flags": beh.get("flags"), "acts": beh["acts"][:k + 1]})
+                seen = {}
+                for m, kind in real["calls"]:
+                    seen.setdefault(m, []).append(kind)
+                for m, kinds in seen.items():
+                    if len(kinds) > 1 and not any(s.get("k") == ("twice", bi, m) for s in out["strict"]):
+                        out["strict"].append({"k": ("twice", bi, m), "behaviour": bi, "step": k, "what": "glue of module %s ran %s" % (m, kinds),
+                                              "flags": beh.get("flags"), "acts": beh["acts"][:k + 1]})
+                    if "builtin" in kinds and cfg["flavour"][m] != "none" and not any(s.get("k") == ("beats", bi, m) for s in out["strict"]):
+                        out["strict"].append({"k": ("beats", bi, m), "behaviour": bi, "step": k, "what": "built-in glue ran for module %s although it provides its own" % m,
+                                              "flags": beh.get("flags"), "acts": beh["acts"][:k + 1]})
+                diff = compare(proj, real) if proj is not None else []
                 out["steps"] += 1
                 if diff:
                     bad = {"behaviour": bi, "step": k, "action": a, "diff": diff, "acts": beh["acts"][:k + 1]}
@@ -242,6 +279,8 @@ def main():
         out["n"] += 1
     world.stop = True
     world.reset()
+    for s_ in out["strict"]:
+        s_.pop("k", None)
     json.dump(out, open(sys.argv[2], "w"))
 
 
